@@ -234,6 +234,18 @@ def exc(ex):
 
 
 def do_load(path, fmt):
+    if fmt == "stl" and "--load-one" not in sys.argv:
+        # the third-party stl_reader aborts the whole process on some files (e.g. zero triangles): isolate it
+        import subprocess
+        try:
+            p = subprocess.run([sys.executable, "-m", "vf.impl.c04_driver", "--load-one", path, fmt], stdout=subprocess.PIPE,
+                               stderr=subprocess.STDOUT, timeout=60, text=True)
+            for line in reversed(p.stdout.splitlines()):
+                if line.startswith("@@JSON "):
+                    return json.loads(line[7:])
+            return {"raw_exc": {"exc": "ProcessAbort", "msg": p.stdout[-200:]}}
+        except subprocess.TimeoutExpired:
+            return {"raw_exc": {"exc": "Timeout", "msg": ""}}
     import mouette as M
     out = {}
     try:
@@ -327,6 +339,10 @@ def run_job(job, root, idx):
 
 def main():
     warnings.simplefilter("ignore")
+    if "--load-one" in sys.argv:
+        i = sys.argv.index("--load-one")
+        print("@@JSON " + json.dumps(do_load(sys.argv[i + 1], sys.argv[i + 2])))
+        return
     payload = json.load(sys.stdin)
     root = tempfile.mkdtemp(prefix="c04_")
     res = []
